@@ -413,7 +413,54 @@ def run_case(case, obs):
         other = S.build(s2)
         eq_bool(obs, region, other, False, 'eq-ignores-class', f'{cname} == {sib} with the same parameters', 'perturbed-unequal')
         eq_bool(obs, other, region, False, 'eq-ignores-class', f'{sib} == {cname} with the same parameters', 'perturbed-unequal')
+    # a compound is an ordered pair of operands: exchanging two different operands gives a different region
+    if cname.startswith('Compound'):
+        same_ops = eq_raw(region.region1, region.region2)
+        if same_ops is False:
+            sw = region.copy(region1=region.region2, region2=region.region1)
+            obs.count('compounds-with-operands-exchanged')
+            eq_bool(obs, region, sw, False, 'eq-misses-field:operand-order', f'{cname}: the compound with its two (different) operands exchanged compares equal', 'perturbed-unequal')
+            eq_bool(obs, sw, region, False, 'eq-misses-field-reversed', f'{cname}: (reversed) the compound with its operands exchanged compares equal', 'perturbed-unequal')
+    # a region whose visual / meta were EDITED through the mapping interface (update / |= / setdefault, also by the documented alias
+    # keys 'width' -> 'linewidth', 'point' -> 'symbol') is a value like any other: its copies equal it, key lookups work
+    if not cname.startswith('Compound'):
+        import regions as _r3
+        ed = region.copy()
+        how = prng.choice(['update-kw', 'update-dict', 'ior', 'setitem'])
+        if how == 'update-kw':
+            ed.visual.update(width=3, point='x')
+            ed.meta.update(label='edited')
+        elif how == 'update-dict':
+            ed.visual.update({'width': 3, 'point': 'x'})
+            ed.meta.update([('label', 'edited')])
+        elif how == 'ior':
+            ed.visual |= {'width': 3, 'point': 'x'}
+            ed.meta |= {'label': 'edited'}
+        else:
+            ed.visual['width'] = 3
+            ed.visual['point'] = 'x'
+            ed.meta['label'] = 'edited'
+        obs.count('regions-edited-through-alias-keys')
+        ok_keys = (dict.get(ed.visual, 'linewidth') == 3 and dict.get(ed.visual, 'symbol') == 'x' and 'width' not in dict.keys(ed.visual)
+                   and 'point' not in dict.keys(ed.visual))
+        try:
+            ok_keys = ok_keys and ed.visual['width'] == 3 and ed.visual['point'] == 'x' and ed.meta['label'] == 'edited'
+        except KeyError:
+            ok_keys = False
+        obs.check(ok_keys, 'alias-key-not-mapped', f'{cname}: after visual {how} with width=3, point="x" the visual holds {dict(ed.visual)}', 'copy-equal')
+        for hw, c in (('copy()', ed.copy()), ('deepcopy', _copy.deepcopy(ed))):
+            eq_bool(obs, c, ed, True, 'copy-not-equal', f'{cname}.{hw} != original after its visual was edited via {how}', 'copy-equal')
+            obs.check(S.fingerprint(c) == S.fingerprint(ed), 'copy-differs-structurally',
+                      f'{cname}.{hw} after a visual edit via {how}: {S.diff_parts(S.fp_parts(ed), S.fp_parts(c))}', 'copy-equal')
     obs.check(S.fingerprint(region) == fp0, 'eq-mutates-operand', f'{cname}: comparisons changed the region', 'eq-reflexive-symmetric')
+
+
+def eq_raw(a, b):
+    try:
+        r = (a == b)
+        return r if isinstance(r, bool) else None
+    except Exception:
+        return None
 
 
 def run_list(case, obs, prng):
